@@ -505,3 +505,19 @@ define void @f() {
   call void @abort()
   unreachable
 }
+;;; ATOM inst/freeze-metadata
+define i32 @f(i32 %x) {
+  %a = freeze i32 %x, !tag !0
+  ret i32 %a
+}
+!0 = !{}
+;;; ATOM inst/gep-constexpr-index
+@g = global [8 x i32] zeroinitializer
+@h = global i32* getelementptr ([8 x i32], [8 x i32]* @g, i64 0, i64 add (i64 ptrtoint (i32* @x to i64), i64 1))
+@x = global i32 0
+define i32* @f(i32* %p) {
+  %a = getelementptr i32, i32* %p, i64 add (i64 ptrtoint (i32* @x to i64), i64 5)
+  %b = getelementptr [8 x i32], [8 x i32]* @g, i64 0, i64 sub (i64 0, i64 ptrtoint (i32* @x to i64))
+  %c = getelementptr i32, i32* %a, i64 zext (i32 ptrtoint (i32* @x to i32) to i64)
+  ret i32* %c
+}
